@@ -635,3 +635,16 @@ package catalog
 //@   tag C09 C01
 //@   pure
 //@   ensures [C09] ret == p
+
+// ---------------------------------------------------------------- a rejection by a setter is never swallowed (C11)
+// setterErrors counts the refusals of the request setters (ghost); the adder that called the setter must report an error
+// whenever the count moved.
+//@ ghostvar setterErrors int
+//@ func (*Catalog).AddRequestBody
+//@   tag C11
+//@   trusted
+//@   ghostensures (isnil(ret) ==> setterErrors == old(setterErrors)) && (!isnil(ret) ==> setterErrors == old(setterErrors) + 1)
+//@ func (*Catalog).AddRequest
+//@   tag C11
+//@   trusted
+//@   ghostensures (isnil(ret) ==> setterErrors == old(setterErrors)) && (!isnil(ret) ==> setterErrors == old(setterErrors) + 1)
